@@ -791,8 +791,8 @@ class Interp:
         for f in reversed(chain):
             d.update(f.locals)
         for k, v in list(d.items()):
-            if isinstance(v, SObj):
-                d[k] = v.snapshot()
+            if isinstance(v, (SObj, LRef)):
+                d[k] = v.snapshot()  # lists too: the loop havoc replaces a mutated list's content in place
         return View(d)
 
     def iter_view(self, st, it):
@@ -992,6 +992,9 @@ class Interp:
             return a + b
         if a is None or b is None:
             raise PyRaise(SExc(TypeError, ("unsupported operand type(s) for NoneType",)))
+        if isinstance(a, SOpaque) or isinstance(b, SOpaque):
+            # an operator applied to an opaque individual: the protocol of its kind models it (or Unsupported)
+            return self.task.opaque_binop(self, st, op, a, b)
         if is_num(a) and is_num(b):
             t = type(op)
             if t is ast.Add:
@@ -1458,6 +1461,15 @@ class Interp:
             sv = h(self, st, e, fr, seq)
             if sv is not None:
                 r.psum = lambda k, sv=sv: sv(k)
+        if r.psum is None and isinstance(e.elt, ast.Name) and isinstance(g.target, ast.Tuple) and all(isinstance(x, ast.Name) for x in g.target.elts):
+            # `x_c for (x_0, .., x_k) in seq` over a sequence of int tuples: its partial sums are, by definition,
+            # the prefix sums of component c of seq (seqs.comp_psum)
+            tn = [x.id for x in g.target.elts]
+            base = seq.seq if isinstance(seq, LRef) else seq
+            if tn.count(e.elt.id) == 1 and isinstance(base, SSeq) and isinstance(base.shape, S.Tup) and len(base.shape.items) == len(tn):
+                c = tn.index(e.elt.id)
+                if isinstance(base.shape.items[c], S._Int):
+                    r.psum = lambda k, base=base, c=c: Q.comp_psum(base, c, k)
         if not uses_target:
             cfr = Frame(fr.fn, fr.mod, parent=fr)
             cfr.self_obj = fr.self_obj
